@@ -143,7 +143,7 @@ func init() {
 	core.Register(&core.Prop{
 		ID:    "C18",
 		Level: "exploration",
-		Rule:  "for encodings {iso-8859-1, windows-1252} x all seven formats: every byte value 0x00-0xFF in every slot (inside a value, as a whole value, next to a delimiter/quote/newline, at the very start/end of the input) and every pair of bytes from the structurally relevant set (bytes decoding to delimiters, quotes, CR, LF, release character, 0xEF 0xBB 0xBF, 0x80-0x9F, 0xFF); inputs crossing the decoder's 4096-byte buffer, and a 9000-byte ASCII value with high bytes at every 41st (thorough: every) position; thorough: every pair of bytes 0x00-0xFF inside a value; UTF-8 BOM x formats x {BOM+data (also with the three BOM bytes split over the first reads in every way), BOM only, BOM with the default (absent) encoding, the three BOM bytes under each single-byte encoding}; the transcript with 'encoding: E' on the raw bytes must equal the transcript with 'encoding: utf-8' on the bytes converted with the standard code page, and a leading BOM must change nothing and never appear in the output; distinct by (format, encoding, input)",
+		Rule:  "for encodings {iso-8859-1, windows-1252} x all seven formats: every byte value 0x00-0xFF in every slot (inside a value, as a whole value, next to a delimiter/quote/newline, at the very start/end of the input) and every pair of bytes from the structurally relevant set (bytes decoding to delimiters, quotes, CR, LF, release character, 0xEF 0xBB 0xBF, 0x80-0x9F, 0xFF); inputs crossing the decoder's 4096-byte buffer, 3-line records (fixedlength2, csv2) with high bytes and empty lines inside the records over more than three reader buffers with the first line padded by 0..47 bytes, and a 9000-byte ASCII value with high bytes at every 41st (thorough: every) position; thorough: every pair of bytes 0x00-0xFF inside a value; UTF-8 BOM x formats x {BOM+data (also with the three BOM bytes split over the first reads in every way), BOM only, BOM with the default (absent) encoding, the three BOM bytes under each single-byte encoding}; the transcript with 'encoding: E' on the raw bytes must equal the transcript with 'encoding: utf-8' on the bytes converted with the standard code page, and a leading BOM must change nothing and never appear in the output; distinct by (format, encoding, input)",
 		Assumptions: []string{
 			"golang.org/x/text/encoding/charmap's batch conversion is the 'standard code page' reference",
 		},
@@ -256,6 +256,44 @@ func init() {
 				}
 				if !try(c18Case{Item: it.Name, Schema: it.Schema, Encoding: "utf-8", Input: nil, Family: "bom-utf8"}) {
 					return
+				}
+			}
+			// many multi-line records with high bytes and empty lines inside the records, over more than three
+			// reader buffers, the first line padded by 0..47 bytes: the two sides of the law have their buffer
+			// boundaries at different places (a high byte is two bytes once converted)
+			{
+				m := map[string]string{}
+				for _, it := range c09Corpus() {
+					m[it.Name] = it.Schema
+				}
+				for _, name := range []string{"c09/fixedlength2-rows3", "c09/csv2-rows3"} {
+					for _, enc := range []string{"iso-8859-1", "windows-1252"} {
+						for fill := 0; fill < 48; fill++ {
+							var b strings.Builder
+							for i := 0; b.Len() < 3*4096+500; i++ {
+								pad := ""
+								if i == 0 {
+									pad = strings.Repeat("p", fill)
+								}
+								sep := ","
+								if strings.Contains(name, "fixedlength2") {
+									sep = "-"
+								}
+								fmt.Fprintf(&b, "a%02d%s\xe9%s%s\n", i%100, sep, strings.Repeat("x", i%17), pad)
+								if i%3 == 1 {
+									b.WriteString("\n")
+								}
+								fmt.Fprintf(&b, "b%02d%s\x80%s\r\n", i%100, sep, strings.Repeat("y", i%13))
+								if i%4 == 2 {
+									b.WriteString("\r\n")
+								}
+								fmt.Fprintf(&b, "c%02d%s\xff%s\n", i%100, sep, strings.Repeat("z", i%7))
+							}
+							if !try(c18Case{Item: name, Schema: m[name], Encoding: enc, Input: []byte(b.String()), Family: "many-multi-line-records"}) {
+								return
+							}
+						}
+					}
 				}
 			}
 		},
